@@ -267,6 +267,9 @@ class Realizer:
                 for k, x in v.attrs['_subregions'].items():
                     s.memo[id(x)] = r.subregions[k]
                     s.back[id(r.subregions[k])] = x
+                # the mesh may hold its own copy of the region: that one is the counterpart of the symbolic region
+                s.memo[id(v.attrs['_region'])] = r._region
+                s.back[id(r._region)] = v.attrs['_region']
             else:
                 h = getattr(s, 'real_' + v.cls, None)
                 if h is None:
@@ -289,6 +292,8 @@ class Realizer:
             return {k: s.real(x) for k, x in v.items()}
         if type(v).__name__ == 'NDArr':
             return v.to_numpy(s.E)
+        if isinstance(v, Builtin) and hasattr(v, '__realize__'):
+            return v.__realize__(s)
         return v
 
     def real_Field(s, v):
